@@ -1,17 +1,351 @@
 package symx
 
-import "golang.org/x/tools/go/ssa"
+// Engine threads (C10).  `go` statements of a harness create engine threads,
+// each backed by a host goroutine; exactly one runs at a time (baton passing).
+// Context switches happen only at scheduling points: just before
+// sync.Mutex.Lock ("lock.want"), after sync.Mutex.Unlock, when a thread ends
+// and in verifJoin.  The scheduler's choice at every point with more than one
+// runnable thread is a decision of the path search, so the interleaving is
+// explored like any other symbolic input; the choices are recorded (Sched)
+// for native schedule replay.
+//
+// While threads are active every load and store of a cell reachable from the
+// shared root (verifShared) is logged with the thread and whether it held a
+// mutex; conflicting accesses of different threads that are not both made
+// under a mutex are reported as race candidates (lockset discipline).
 
-// threadSched is installed by harnesses that start goroutines (C10).
-type threadSched struct {
-	ex *Exec
+import (
+	"fmt"
+	"sort"
+
+	"golang.org/x/tools/go/ssa"
+)
+
+type thread struct {
+	id      int
+	wake    chan bool // true = run, false = abort
+	exited  chan struct{}
+	done    bool
+	blocked *value // mutex this thread waits for
+	joining bool
+	started bool
 }
 
-func (ts *threadSched) noteWrite(fr *frame, addr interface{}) {}
-func (ts *threadSched) lock(fr *frame, m *value)               {}
-func (ts *threadSched) unlock(fr *frame, m *value)             {}
-func (ts *threadSched) finish()                                {}
+type threadAbort struct{}
 
+type access struct {
+	thread int
+	write  bool
+	locked bool
+	site   string
+}
+
+type threadSched struct {
+	ex       *Exec
+	threads  []*thread
+	cur      *thread
+	err      interface{} // panic of a non-main thread, re-raised in main
+	shared   *frozenSet
+	log      map[*value][]access
+	mlog     map[*omap][]access
+	active   bool // concurrent phase
+	held     map[int]int // thread id -> number of mutexes held
+}
+
+func (ex *Exec) sched() *threadSched {
+	if ex.hooks == nil {
+		main := &thread{id: 0, wake: make(chan bool), started: true}
+		ex.hooks = &threadSched{ex: ex, threads: []*thread{main}, cur: main, log: map[*value][]access{}, mlog: map[*omap][]access{}, held: map[int]int{}}
+	}
+	return ex.hooks
+}
+
+func (ts *threadSched) runnable(t *thread) bool {
+	if t.done {
+		return false
+	}
+	if t.blocked != nil && ts.ex.lockOf(t.blocked).held {
+		return false
+	}
+	if t.joining {
+		for _, o := range ts.threads {
+			if o != t && !o.done {
+				return false
+			}
+		}
+	}
+	return true
+}
+
+func (ts *threadSched) candidates(exclude *thread) []*thread {
+	var c []*thread
+	for _, t := range ts.threads {
+		if t != exclude && ts.runnable(t) {
+			c = append(c, t)
+		}
+	}
+	return c
+}
+
+// pick makes the scheduling decision among cands (sorted by id).
+func (ts *threadSched) pick(cands []*thread) *thread {
+	if len(cands) == 1 {
+		return cands[0]
+	}
+	c := ts.ex.decide(len(cands), func(int) *Term { return nil })
+	ts.ex.schedVec = append(ts.ex.schedVec, c)
+	return cands[c]
+}
+
+// switchTo hands the baton to next and parks the current thread.
+func (ts *threadSched) switchTo(next *thread) {
+	cur := ts.cur
+	if next == cur {
+		return
+	}
+	ts.cur = next
+	ts.ex.thread = next.id
+	if !next.started {
+		next.started = true
+	}
+	next.wake <- true
+	if ok := <-cur.wake; !ok {
+		panic(threadAbort{})
+	}
+	ts.cur = cur
+	ts.ex.thread = cur.id
+	if cur.id == 0 && ts.err != nil {
+		e := ts.err
+		ts.err = nil
+		panic(e)
+	}
+}
+
+// yieldPoint lets the scheduler run another thread here.
+func (ts *threadSched) yieldPoint() {
+	if len(ts.threads) == 1 {
+		return
+	}
+	cands := ts.candidates(nil)
+	if len(cands) == 0 {
+		return
+	}
+	ts.switchTo(ts.pick(cands))
+}
+
+func (ts *threadSched) where(fr *frame) string {
+	if fr == nil {
+		return "?"
+	}
+	return fr.siteKey() + " [" + fr.where() + "]"
+}
+
+func (ts *threadSched) lock(fr *frame, m *value) {
+	ex := ts.ex
+	ts.yieldPoint() // lock.want
+	ls := ex.lockOf(m)
+	for ls.held {
+		if ls.owner == ts.cur.id {
+			panic(runtimePanic{kind: "deadlock", msg: "sync.Mutex.Lock on a mutex this goroutine already holds", where: ts.where(fr)})
+		}
+		ts.cur.blocked = m
+		cands := ts.candidates(ts.cur)
+		if len(cands) == 0 {
+			panic(runtimePanic{kind: "deadlock", msg: "all goroutines are blocked", where: ts.where(fr)})
+		}
+		ts.switchTo(ts.pick(cands))
+	}
+	ts.cur.blocked = nil
+	ls.held, ls.owner = true, ts.cur.id
+	ts.held[ts.cur.id]++
+}
+
+func (ts *threadSched) unlock(fr *frame, m *value) {
+	ls := ts.ex.lockOf(m)
+	if !ls.held {
+		panic(runtimePanic{kind: "unlock", msg: "sync: unlock of unlocked mutex", where: ts.where(fr)})
+	}
+	ls.held = false
+	ts.held[ls.owner]--
+	ts.yieldPoint() // lock.released
+}
+
+// spawn implements the go statement.
 func (ex *Exec) spawn(fr *frame, instr *ssa.Go, fn value, args []value) {
-	panic(engineError{"go statements are not supported yet"})
+	ts := ex.sched()
+	t := &thread{id: len(ts.threads), wake: make(chan bool), exited: make(chan struct{})}
+	ts.threads = append(ts.threads, t)
+	ts.active = true
+	go func() {
+		defer close(t.exited)
+		if ok := <-t.wake; !ok {
+			return
+		}
+		defer func() {
+			r := recover()
+			if _, isAbort := r.(threadAbort); isAbort {
+				return
+			}
+			t.done = true
+			main := ts.threads[0]
+			if r != nil {
+				// hand the failure to the main thread
+				ts.err = r
+				ts.cur = main
+				ts.ex.thread = 0
+				main.wake <- true
+				return
+			}
+			// normal end: pick who runs next
+			cands := ts.candidates(t)
+			if len(cands) == 0 {
+				ts.err = runtimePanic{kind: "deadlock", msg: "all goroutines are blocked at the end of a goroutine", where: "goroutine end"}
+				ts.cur = main
+				ts.ex.thread = 0
+				main.wake <- true
+				return
+			}
+			func() {
+				defer func() {
+					if r2 := recover(); r2 != nil {
+						ts.err = r2
+						ts.cur = main
+						ts.ex.thread = 0
+						main.wake <- true
+					}
+				}()
+				next := ts.pick(cands)
+				ts.cur = next
+				ts.ex.thread = next.id
+				next.wake <- true
+			}()
+		}()
+		ex.call(nil, instr.Pos(), fn, args)
+	}()
+}
+
+// join parks the main thread until every other thread has ended.
+func (ts *threadSched) join(fr *frame) {
+	main := ts.threads[0]
+	for {
+		all := true
+		for _, t := range ts.threads[1:] {
+			if !t.done {
+				all = false
+			}
+		}
+		if all {
+			break
+		}
+		main.joining = true
+		cands := ts.candidates(main)
+		if len(cands) == 0 {
+			panic(runtimePanic{kind: "deadlock", msg: "all goroutines are blocked (join)", where: ts.where(fr)})
+		}
+		ts.switchTo(ts.pick(cands))
+	}
+	main.joining = false
+	ts.active = false
+	ts.reportRaces()
+}
+
+// finish aborts the threads that are still parked (end of path).
+func (ts *threadSched) finish() {
+	for _, t := range ts.threads[1:] {
+		if !t.done || !isClosed(t.exited) {
+			select {
+			case t.wake <- false:
+			case <-t.exited:
+			}
+			<-t.exited
+		}
+	}
+}
+
+func isClosed(c chan struct{}) bool {
+	select {
+	case <-c:
+		return true
+	default:
+		return false
+	}
+}
+
+// ---- access log / lockset
+
+func (ts *threadSched) noteWrite(fr *frame, addr interface{}) { ts.note(fr, addr, true) }
+func (ts *threadSched) noteRead(fr *frame, addr interface{})  { ts.note(fr, addr, false) }
+
+func (ts *threadSched) note(fr *frame, addr interface{}, write bool) {
+	if !ts.active || ts.shared == nil || fr == nil {
+		return
+	}
+	a := access{thread: ts.cur.id, write: write, locked: ts.held[ts.cur.id] > 0, site: fr.siteKey()}
+	switch x := addr.(type) {
+	case *value:
+		if ts.shared.cells[x] {
+			ts.log[x] = appendAccess(ts.log[x], a)
+		}
+	case *omap:
+		if ts.shared.maps[x] {
+			ts.mlog[x] = appendAccess(ts.mlog[x], a)
+		}
+	}
+}
+
+func appendAccess(l []access, a access) []access {
+	for _, b := range l {
+		if b == a {
+			return l
+		}
+	}
+	return append(l, a)
+}
+
+func (ts *threadSched) reportRaces() {
+	found := map[string]string{}
+	check := func(l []access) {
+		for i := range l {
+			for j := i + 1; j < len(l); j++ {
+				a, b := l[i], l[j]
+				if a.thread == b.thread || (!a.write && !b.write) || (a.locked && b.locked) {
+					continue
+				}
+				if a.thread == 0 || b.thread == 0 {
+					continue // the main thread only runs before the go statements and after the join
+				}
+				s1, s2 := a.site, b.site
+				k1, k2 := "r", "r"
+				if a.write {
+					k1 = "w"
+				}
+				if b.write {
+					k2 = "w"
+				}
+				p := []string{k1 + ":" + s1, k2 + ":" + s2}
+				sort.Strings(p)
+				id := "race:" + p[0] + "|" + p[1]
+				if _, ok := found[id]; !ok {
+					found[id] = fmt.Sprintf("unsynchronised %s in %s and %s in %s on shared memory", map[string]string{"r": "read", "w": "write"}[k1], s1, map[string]string{"r": "read", "w": "write"}[k2], s2)
+				}
+			}
+		}
+	}
+	for _, l := range ts.log {
+		check(l)
+	}
+	for _, l := range ts.mlog {
+		check(l)
+	}
+	var ids []string
+	for id := range found {
+		ids = append(ids, id)
+	}
+	sort.Strings(ids)
+	if !ts.ex.atFrontier() {
+		return
+	}
+	for _, id := range ids {
+		ts.ex.recordViolation("race", id, found[id], ts.ex.model)
+	}
 }
